@@ -17,10 +17,10 @@ Definition standalone_ignore (L : Z) : comment := mkC L TypeIgnore true.
 (* [inserted P D D' A]: the event sequence D' is D with the events A (each satisfying P) inserted, the
    relative order of everything else unchanged.  This is how the parser's flattened output changes when one
    comment is added to the source (monitored on the real parser by the check). *)
-Inductive inserted (P : event -> Prop) : list event -> list event -> list event -> Prop :=
+Inductive inserted {A : Type} (P : A -> Prop) : list A -> list A -> list A -> Prop :=
 | ins_nil : inserted P [] [] []
-| ins_keep : forall ev D D' A, inserted P D D' A -> inserted P (ev :: D) (ev :: D') A
-| ins_add : forall ev D D' A, P ev -> inserted P D D' A -> inserted P D (ev :: D') (ev :: A).
+| ins_keep : forall x D D' Ad, inserted P D D' Ad -> inserted P (x :: D) (x :: D') Ad
+| ins_add : forall x D D' Ad, P x -> inserted P D D' Ad -> inserted P D (x :: D') (x :: Ad).
 
 (* filter_error treats line 0 as below the file *)
 Definition eff_line (l : Z) : Z := if l =? 0 then maxsize else l.
